@@ -383,46 +383,7 @@ pub fn all_ge_128(s: &[u8]) -> (r: bool)
     true
 }
 
-// =====================================================================================
-// Abstract (spec-level) objects: the mathematical value a lopdf Object denotes.
-// Layouts that involve values the code builds on the fly (the trailer after `set`) are stated over these.
-// =====================================================================================
-pub enum SObj {
-    Null,
-    Boolean(bool),
-    Integer(i64),
-    Real(f32),
-    Name(Seq<u8>),
-    String(Seq<u8>, StringFormat),
-    Array(Seq<SObj>),
-    Dictionary(Seq<(Seq<u8>, SObj)>),
-    Stream(Seq<(Seq<u8>, SObj)>, Seq<u8>),
-    Reference(ObjectId),
-}
-pub type SDict = Seq<(Seq<u8>, SObj)>;
-
-pub open spec fn abs(o: Object) -> SObj decreases o {
-    match o {
-        Object::Null => SObj::Null,
-        Object::Boolean(b) => SObj::Boolean(b),
-        Object::Integer(v) => SObj::Integer(v),
-        Object::Real(v) => SObj::Real(v),
-        Object::Name(n) => SObj::Name(n@),
-        Object::String(t, f) => SObj::String(t@, f),
-        Object::Array(a) => SObj::Array(abs_items(a@, a@.len() as int)),
-        Object::Dictionary(d) => SObj::Dictionary(abs_dict(d)),
-        Object::Stream(st) => SObj::Stream(abs_dict(st.dict), st.content@),
-        Object::Reference(id) => SObj::Reference(id),
-    }
-}
-pub open spec fn abs_items(a: Seq<Object>, i: int) -> Seq<SObj> decreases a, i {
-    if i <= 0 || i > a.len() { Seq::<SObj>::empty() } else { abs_items(a, i - 1).push(abs(a[i - 1])) }
-}
-pub open spec fn abs_entries(e: Seq<(Vec<u8>, Object)>, i: int) -> SDict decreases e, i {
-    if i <= 0 || i > e.len() { Seq::<(Seq<u8>, SObj)>::empty() } else { abs_entries(e, i - 1).push((e[i - 1].0@, abs(e[i - 1].1))) }
-}
-pub open spec fn abs_dict(d: Dictionary) -> SDict decreases d { abs_entries(d.entries@, d.entries@.len() as int) }
-
+// (the abstract object domain SObj / abs / abs_dict lives in prelude/absobj.rs)
 pub open spec fn s_sp_before(o: SObj) -> bool { o is Null || o is Boolean || o is Integer || o is Real || o is Reference }
 pub open spec fn s_sp_after(o: SObj) -> bool { o is Null || o is Boolean || o is Integer || o is Real || o is Name || o is Reference || o is Stream }
 
@@ -449,15 +410,6 @@ pub open spec fn enc_s_entries(e: SDict, i: int) -> Seq<u8> decreases e, i {
 pub open spec fn enc_s_dict(d: SDict) -> Seq<u8> decreases d, d.len() + 1 { seq![0x3cu8, 0x3cu8] + enc_s_entries(d, d.len() as int) + seq![0x3eu8, 0x3eu8] }
 
 // the concrete encoder spec and the abstract one agree
-pub proof fn lemma_abs_items_len(a: Seq<Object>, i: int)
-    requires 0 <= i <= a.len() ensures abs_items(a, i).len() == i, forall|j: int| 0 <= j < i ==> abs_items(a, i)[j] == abs(a[j])
-    decreases i
-{ if i > 0 { lemma_abs_items_len(a, i - 1); } }
-pub proof fn lemma_abs_entries_len(e: Seq<(Vec<u8>, Object)>, i: int)
-    requires 0 <= i <= e.len() ensures abs_entries(e, i).len() == i, forall|j: int| 0 <= j < i ==> abs_entries(e, i)[j] == (e[j].0@, abs(e[j].1))
-    decreases i
-{ if i > 0 { lemma_abs_entries_len(e, i - 1); } }
-
 pub proof fn lemma_enc_abs(o: Object)
     ensures enc_obj(o) == enc_s(abs(o)), sp_before(o) == s_sp_before(abs(o)), sp_after(o) == s_sp_after(abs(o))
     decreases o, 0nat
